@@ -460,6 +460,11 @@ def run(mod, tier, seed, nproc=None):
             e = match_known(mod.ID, f, known)
             if e is not None:
                 known_hits.setdefault(e["id"], [e, 0])[1] += 1
+                kp = os.path.join(rdir, "known-%s.json" % e["id"])
+                if not os.path.exists(kp):
+                    os.makedirs(rdir, exist_ok=True)
+                    with open(kp, "w") as fh:
+                        json.dump(dict(property=mod.ID, bucket=key, seed=seed, tier=tier, known_finding=e["id"], **f), fh, indent=1, sort_keys=True)
             else:
                 unknown.append(f)
         if not unknown:
